@@ -1457,6 +1457,28 @@ func (m *Model) eval(e *N, sc *Scope) (interface{}, ctl) {
 			return nil, c
 		}
 		return m.truthy(b), ok0
+	case "chain":
+		// a && b && c ... / a || b || c ... written without inner parentheses (S is the operator): the
+		// grammar nests it to the left, ((a && b) && c): operands run left to right until one decides
+		// the result, the ones after it never run
+		and := e.S == "&&"
+		if (!and && e.S != "||") || len(e.Ns) < 2 {
+			m.unspec("model: malformed operator chain")
+		}
+		for i, k := range e.Ns {
+			a, c := m.eval(k, sc)
+			if c.s != sNone {
+				return nil, c
+			}
+			if ta := m.truthy(a); ta != and {
+				if i < len(e.Ns)-1 {
+					m.feat("short_circuit")
+					m.feat("chain_decided_before_its_end")
+				}
+				return ta, ok0
+			}
+		}
+		return and, ok0
 	case "tern":
 		a, c := m.eval(e.Ns[0], sc)
 		if c.s != sNone {
@@ -1528,6 +1550,14 @@ func (m *Model) eval(e *N, sc *Scope) (interface{}, ctl) {
 		if c.s != sNone {
 			return nil, c
 		}
+		switch a.(type) {
+		case nil, bool, int64, float64:
+			// a value that has no index operation: whether the index operand still runs before the
+			// operation fails is not specified (the generators use constant indexes here)
+			if k := e.Ns[1].K; k != "int" && k != "str" {
+				m.unspec("index of a value without index operation with a non-constant index")
+			}
+		}
 		i, c := m.eval(e.Ns[1], sc)
 		if c.s != sNone {
 			return nil, c
@@ -1552,6 +1582,27 @@ func (m *Model) eval(e *N, sc *Scope) (interface{}, ctl) {
 				m.unspec("host array index %v", i)
 			}
 			return t.E[ix], ok0
+		case string:
+			// a string (ASCII only in the generators) indexed by an integer: the one-character string
+			ix, ok := i.(int64)
+			if !ok {
+				m.unspec("string index of %T", i)
+			}
+			for k := 0; k < len(t); k++ {
+				if t[k] >= 0x80 {
+					m.unspec("index of a string with non-ASCII bytes")
+				}
+			}
+			if ix < 0 || ix >= int64(len(t)) {
+				m.feat("index_out_of_range")
+				return nil, errc("index out of range", false)
+			}
+			m.feat("index_of_string")
+			return string(t[ix]), ok0
+		case nil, bool, int64, float64:
+			// a value that has no index operation: the operation fails
+			m.feat("index_of_unindexable_value")
+			return nil, errc("does not support index operation", false)
 		}
 		m.unspec("index of %T", a)
 	case "mem":
